@@ -447,6 +447,16 @@ int main(int argc, char** argv)
 						}
 						Rows M = symmetric_from(fam[qi], lam);
 						check_eigen(M, "Q" + std::to_string(qi) + "_r" + std::to_string(ri) + "_s" + std::to_string(signs));
+						// the same spectrum in other positions along the diagonal of Q^T M Q: ascending, and with neighbours exchanged
+						// (an unshifted QR iteration first has to re-order them; for nearly diagonal M the coupling grows before it decays)
+						if(n >= 2 && top == 1.0 && signs < 2)
+							for(int ord = 1; ord <= 2; ord++)
+							{
+								std::vector<double> l2 = lam;
+								if(ord == 1) std::reverse(l2.begin(), l2.end());
+								else for(int i = 0; i + 1 < n; i += 2) std::swap(l2[i], l2[i + 1]);
+								check_eigen(symmetric_from(fam[qi], l2), "Q" + std::to_string(qi) + "_r" + std::to_string(ri) + "_s" + std::to_string(signs) + "_order" + std::to_string(ord));
+							}
 					}
 	}
 done:
